@@ -7,6 +7,7 @@ RULE = ("ops `eqhash a b` (Object::is_falsey of both operands) and `un Bang v` t
         "the spec is the documented falsey table; exhaustive over the representatives of every value kind "
         "(zero/non-zero, empty/non-empty, NaN, -0.0, nested empty containers, closures, builtins, file handles, error objects); "
         "non-trivial = the implementation produced a value")
+HARNESS_TIMEOUT = 30      # the programs are tiny; a change that makes loops run forever should cost seconds per case, not minutes
 ASSUMPTIONS = ["every truthiness position of the language (!, &&, ||, if, else-if, while, if-expression) is exercised with a source-level representative of every value kind through the real pipeline (op `eval`), "
                "the reference semantics (falsey table) as oracle; the filter-pattern position is exercised by C20's end-to-end engine"]
 EXHAUSTIVE = True
